@@ -151,6 +151,8 @@ for _p in ['C01', 'C02', 'C03', 'C04', 'C05', 'C07', 'C08', 'C09', 'C10', 'C11',
 
 # One-line statement of the clause each later rule decides; appended to the property text for every property the rule serves.
 RULE_CLAUSES = {
+    'CHECKEDRET': 'no boolean verdict of an in-repository function is discarded (CHECKEDRET)',
+    'MEMBERQ': 'membership queries are decided by lookups of the key only (MEMBERQ)',
     'SHAREID': 'no branch of an explicit-core operation tests whether two operands physically share their stores (SHAREID)',
     'NOREGEX': 'the parser and serializer run no backtracking regex matcher over input tokens (NOREGEX)',
     'OWNKEY': 'a state drawn from one operand is only looked up in that operand (OWNKEY)',
